@@ -266,7 +266,11 @@ class Sut:
             return None
         if k == 'value':
             P = self.nav(ri, op['p'])
-            P.value = op['text']
+            if op.get('bdt'):
+                from hl7apy.factories import datatype_factory
+                P.value = datatype_factory(op['bdt'][0], op['bdt'][1], self.meta[ri]['version'], self.level)
+            else:
+                P.value = op['text']
             return None
         if k == 'reattach':
             P = self.nav(ri, op['p'])
@@ -517,6 +521,17 @@ class HistoryWorld:
         ec = sut.meta[ri]['ec']
         if op.get('bad') and op.get('bad') not in ('cardinality', 'datatype_override', 'delete_required'):
             return 'lost'
+        if op.get('bad') == 'datatype_override':
+            # followed only for complex -> complex overrides on a field of a known segment (C04's defect
+            # prediction); a leaf field given a complex datatype keeps its leaf reference in the library
+            try:
+                ctx = sut.ctx_path(ri, list(op.get('p', [])) + ([op['c']] if 'c' in op else []))[-1]
+                ok = ctx.kind == 'fld' and ctx.ref is not None and not T.is_base(ctx.version, ctx.ref[2]) and \
+                    op.get('datatype') and not T.is_base(ctx.version, op['datatype']) and ctx.ref[0] == 'sequence'
+            except Exception:
+                ok = False
+            if not ok:
+                return 'lost'
         before = {n.uid for n in root.all_nodes()}
 
         def done():
@@ -591,7 +606,8 @@ class HistoryWorld:
             kind = node.kind
             if kind in ('msg', 'grp'):
                 return 'lost'
-            new = EM.node_from_text(kind, node.key, op['text'], ec)
+            text = op['bdt'][1] if op.get('bdt') else op['text']
+            new = EM.node_from_text(kind, node.key, text, ec)
             node.kids = new.kids
             return done()
         if k == 'detach':
